@@ -15,6 +15,20 @@ Theorem C09_decoders_total :
 Proof. exact decoders_total. Qed.
 Print Assumptions C09_decoders_total.
 
+(* Fxx-C09-1: DeviceAuthorizationResponse.UnmarshalJSON, every JSON value (null included), top-level or as a member *)
+Theorem C09_device_authz_response_total :
+  forall (rfc3339_ok : string -> bool) (lang_class : string -> nat) (j : json),
+    decode_device_authz rfc3339_ok lang_class true j <> Panic.
+Proof. exact decoders_device_authz. Qed.
+Print Assumptions C09_device_authz_response_total.
+
+(* ... decoding through &aux instead of aux: JSON null resets the helper pointer, which is then read *)
+Theorem C09_device_authz_response_refuted :
+  forall (rfc3339_ok : string -> bool) (lang_class : string -> nat),
+    exists j, decode_device_authz rfc3339_ok lang_class false j = Panic.
+Proof. exact device_authz_indirect_refuted. Qed.
+Print Assumptions C09_device_authz_response_refuted.
+
 (* F01: with the unchecked element assertion, aud = ["a",1] panics *)
 Theorem C09_audience_unchecked_refuted : exists j, decode_audience false j = Panic.
 Proof. exact audience_unchecked_refuted. Qed.
@@ -27,6 +41,17 @@ Theorem C09_verifiers_total :
     verify rfc3339_ok lang_class true true k t <> VPanic.
 Proof. exact verify_total. Qed.
 Print Assumptions C09_verifiers_total.
+
+(* the callers of op.VerifyIDTokenHint (end_session, authorize): whatever the signed hint's issuer, signature, exp and iat
+   are, the claims read after a tolerated (expiry-related) failure are not nil *)
+Theorem C09_hint_callers_total : forall c h, hint_caller true c h <> HPanic.
+Proof. exact hints_total. Qed.
+Print Assumptions C09_hint_callers_total.
+
+(* seeded regression: returning nil claims with the tolerated error for a missing / future iat panics the callers *)
+Theorem C09_hint_nil_claims_refuted : exists c h, hint_caller false c h = HPanic.
+Proof. exact hint_nil_claims_refuted. Qed.
+Print Assumptions C09_hint_nil_claims_refuted.
 
 (* F02: without the object guard in ParseToken a null payload panics rp.VerifyIDToken *)
 Theorem C09_verifiers_unguarded_refuted :
@@ -105,6 +130,13 @@ Theorem C09_client_success_only_on_documents :
     call rfc3339_ok lang_class true h a e = CRetOk -> a_ok a = true /\ exists j, a_body a = BJson j.
 Proof. exact client_success_only_on_documents. Qed.
 Print Assumptions C09_client_success_only_on_documents.
+
+(* seeded regression: growing the read buffer to the announced Content-Length panics on an absurd one *)
+Theorem C09_client_presize_refuted :
+  forall (rfc3339_ok : string -> bool) (lang_class : string -> nat),
+    exists h a, http_request_from rfc3339_ok lang_class true true h a = Panic.
+Proof. exact presize_refuted. Qed.
+Print Assumptions C09_client_presize_refuted.
 
 (* F12: without the null guard in HttpRequest, a 200 answer with body null panics client.Discover *)
 Theorem C09_client_unguarded_refuted :
